@@ -119,7 +119,10 @@ HLCheck(e) ==
       okCw == e.cwerr = 1 \/ (~d.err /\ d.text = t /\ PadsOK(e.cw, d.pad) /\ i # 0 /\ Len(e.cw) = NData(T7[i]))
       okDec == e.cwerr = 1 \/ (e.derr = "" /\ e.dtext = e.utf8)
       okImg == Len(e.img) # 2 \/ (IF e.cwerr = 1 THEN e.werr = 1
-                                   ELSE e.werr = 0 /\ e.rerr = "" /\ e.rtext = e.utf8 /\ e.rfmt = 1)
+                                   ELSE /\ e.werr = 0 /\ e.rerr = "" /\ e.rtext = e.utf8 /\ e.rfmt = 1
+                                        \* module-exact image: the decoder's two matrix entry points (BitMatrix, [][]bool)
+                                        /\ (e.img = <<0, 0>> /\ "merr" \in DOMAIN e =>
+                                              e.merr = "" /\ e.mtext = e.utf8 /\ e.berr = "" /\ e.btext = e.utf8))
   IN <<B(okRun), B(~okRun \/ okRefusal), B(~okRun \/ okCw), B(~okRun \/ okDec), B(~okRun \/ okImg)>>
 LACheck(e) == <<1>>
 =============================================================================
